@@ -187,6 +187,8 @@ def run_check(args):
             n_undecided_fail += 1
     unknown_obl = [k for k, o in obl.items() if o["unknown"]]
     missing = sorted(k for k in lock if k not in obl)
+    if getattr(args, "update_lock", False):
+        missing = []  # the lock is being regenerated: renamed clauses are expected
     # an obligation of the lock file that is no longer generated: the function / loop / clause it
     # belonged to has gone -- undecided, never a pass
     n_obl = len(obl)
